@@ -386,20 +386,51 @@ def walk_scan(base):
     return out
 
 
-def scan_summary(arr, st, conf_disks):
-    """independent re-statement of the scan classification under --test-skip-device (UUIDs unsupported: no past inodes,
-    so no move / restore detection; a second name of an inode whose first name was found EQUAL is a hardlink).
-    -> per configured disk: dict(equal, move, restore, remove, change, insert, zero, kept=[file entries], need_write)"""
+def scan_summary(arr, st, conf_disks, uuid_disks=()):
+    """independent re-statement of the scan classification (scan.c scan_file / scan_link / state_diffscan).
+    Disks named in uuid_disks have a valid, unchanged UUID (--test-fake-uuid): the inodes recorded in the content file are
+    trusted, so MOVED files (same inode, size, time; other name) and RESTORED files (same name, size, time; other inode) are
+    recognised.  For the other disks (UUID unsupported under --test-skip-device) recorded inodes are ignored.  A second name
+    of an inode whose first name was recognised is a hardlink.  A new or changed file with the same name (path when its
+    nanoseconds are 0/invalid), size and time as a fully hashed recorded file of ANY disk is counted as COPY, not as
+    change / insert (scan.c:1036-1077).
+    -> per configured disk: dict(equal, move, restore, remove, change, insert, copy, zero, kept=[file entries], need_write)"""
     res = []
+    # the stamp set: fully hashed recorded files of all disks (file_is_full_hashed_and_stable)
+    stamps = []
+    if st:
+        for dn, dd in st['disks'].items():
+            for f in dd['files']:
+                if f['blocks'] and all(s in ('BLK', 'REP') for s, _, _ in f['blocks']) and \
+                        not any(pos < len(st['info']) and st['info'][pos] and st['info'][pos]['rehash'] for _, pos, _ in f['blocks']):
+                    stamps.append((dn, f))
+
+    def is_copy(rel, s):
+        sec, nsec = s.st_mtime_ns // 10**9, s.st_mtime_ns % 10**9
+        for dn, f in stamps:
+            if f['size'] != s.st_size or f['sec'] != sec or f['nsec'] != nsec:
+                continue
+            fsub = f['sub'].decode('latin1')
+            if nsec != 0:
+                if os.path.basename(fsub) == os.path.basename(rel):
+                    return True
+            elif fsub == rel:
+                return True
+        return False
     for name, dirp in conf_disks:
         dd = (st['disks'].get(name) if st else None) or {'files': [], 'links': [], 'dirs': [], 'deleted': {}}
         files = {f['sub'].decode('latin1'): f for f in dd['files']}
         links = {l['sub'].decode('latin1'): l for l in dd['links']}
         dirs = set(d.decode('latin1') for d in dd['dirs'])
-        c = {'equal': 0, 'move': 0, 'restore': 0, 'remove': 0, 'change': 0, 'insert': 0, 'zero': False, 'kept': [],
+        trust = name in uuid_disks
+        byino = {f['inode']: sub for sub, f in files.items()} if trust else {}
+        c = {'equal': 0, 'move': 0, 'restore': 0, 'remove': 0, 'change': 0, 'insert': 0, 'copy': 0, 'zero': False, 'kept': [],
              'need_write': False, 'zero_files': [], 'new_nonempty': False}
         seen_files, seen_links, seen_dirs = set(), set(), set()
-        present_inodes = {}      # inode -> sub of a recorded file found equal in this scan
+        present_inodes = {}      # inode -> recorded sub of a file recognised in this scan
+
+        def same(f, s):
+            return f['size'] == s.st_size and f['sec'] == s.st_mtime_ns // 10**9 and (f['nsec'] == s.st_mtime_ns % 10**9 or f['nsec'] == -1)
 
         def do_link(rel, to, hard):
             l = links.get(rel)
@@ -411,6 +442,17 @@ def scan_summary(arr, st, conf_disks):
                     c['change'] += 1; c['need_write'] = True
             else:
                 c['insert'] += 1; c['need_write'] = True
+
+        def new_or_changed(rel, s, changed):
+            c['need_write'] = True
+            if s.st_size > 0:
+                c['new_nonempty'] = True
+            if is_copy(rel, s):
+                c['copy'] += 1
+            elif changed:
+                c['change'] += 1
+            else:
+                c['insert'] += 1
         for ent in walk_scan(dirp):
             if ent[0] == 'l':
                 do_link(ent[1], ent[2], False)
@@ -425,28 +467,42 @@ def scan_summary(arr, st, conf_disks):
                     if f0['size'] == s.st_size and f0['sec'] == s.st_mtime_ns // 10**9:
                         do_link(rel, present_inodes[s.st_ino], True)
                         continue
+                # by inode (only when the recorded inodes are trusted)
+                sub0 = byino.get(s.st_ino)
+                if sub0 is not None and sub0 not in seen_files and same(files[sub0], s):
+                    f = files[sub0]
+                    seen_files.add(sub0)
+                    present_inodes[s.st_ino] = sub0
+                    c['kept'].append(f)
+                    if sub0 != rel:
+                        c['move'] += 1; c['need_write'] = True
+                        files[rel] = f                 # the record now answers to the new name
+                    else:
+                        c['equal'] += 1
+                    if f['nsec'] == -1:
+                        c['need_write'] = True
+                    continue
                 f = files.get(rel)
                 if f is not None and rel not in seen_files:
                     seen_files.add(rel)
-                    if f['size'] == s.st_size and f['sec'] == s.st_mtime_ns // 10**9 and (f['nsec'] == s.st_mtime_ns % 10**9 or f['nsec'] == -1):
-                        c['equal'] += 1
+                    if same(f, s):
+                        if trust:
+                            c['restore'] += 1; c['need_write'] = True
+                        else:
+                            c['equal'] += 1
                         c['kept'].append(f)
                         present_inodes[s.st_ino] = rel
                         if f['nsec'] == -1:
                             c['need_write'] = True
                     else:
-                        c['change'] += 1; c['need_write'] = True
-                        if s.st_size > 0:
-                            c['new_nonempty'] = True
                         if f['size'] != 0 and s.st_size == 0:
                             c['zero'] = True
                             c['zero_files'].append(rel)
+                        new_or_changed(rel, s, True)
                 else:
-                    c['insert'] += 1; c['need_write'] = True
-                    if s.st_size > 0:
-                        c['new_nonempty'] = True
-        for rel in files:
-            if rel not in seen_files:
+                    new_or_changed(rel, s, False)
+        for rel, f in list(files.items()):
+            if f['sub'].decode('latin1') == rel and rel not in seen_files:
                 c['remove'] += 1; c['need_write'] = True
         for rel in links:
             if rel not in seen_links:
@@ -537,13 +593,18 @@ def presummary(arr, paths, cmd, opts):
     d['unknown_disk'] = bool(st) and any(m['name'] not in cnames for m in st['maps'])
     d['uuid_changes'] = 0
     loaded = st if (st and not d['bs_mismatch'] and not d['hs_mismatch'] and not d['unknown_disk']) else None
-    scan = scan_summary(arr, loaded, conf_disks)
+    # --test-fake-uuid gives the first two configured data disks a valid UUID; it is trusted when the content file records the same
+    uuid_disks = ()
+    if ('--test-fake-uuid' in opts or getattr(arr, 'fake_uuid', False)) and loaded:
+        fake = {n: ('fake-uuid-%d' % (2 - i)).encode() for i, (n, _) in enumerate(conf_disks[:2])}
+        uuid_disks = tuple(m['name'] for m in loaded['maps'] if fake.get(m['name']) == m['uuid'])
+    scan = scan_summary(arr, loaded, conf_disks, uuid_disks)
     d['_scan'] = scan
-    d['disks'] = [(c['equal'], c['move'], c['restore'], c['remove'], c['change'], c['zero']) for c in scan]
+    d['disks'] = [(c['equal'], c['move'], c['restore'], c['remove'], c['change'], c['insert'], c['copy'], c['zero']) for c in scan]
     d['scan_need_write'] = any(c['need_write'] for c in scan)
     # -R converts every BLK block to REP while loading (state.c:2037): nothing counts as used any more
     d['used'] = 0 if ('-R' in opts or '--force-realloc' in opts) else used_blocks(scan)
-    pend = any(c['remove'] or c['change'] or c['insert'] for c in scan)
+    pend = any(c['remove'] or c['change'] or c['insert'] or c['copy'] or c['move'] or c['restore'] for c in scan)
     allblk = bool(loaded) and all(s == 'BLK' for dd in loaded['disks'].values() for f in dd['files'] for s, _, _ in f['blocks']) \
         and not any(dd['deleted'] for dd in loaded['disks'].values())
     cur_blockmax = loaded['blockmax'] if loaded else 0
@@ -637,8 +698,8 @@ def pre_tokens(d, arr):
     t = ['P', b(d['conf_ok']), b(d['lock_free']), str(d['ncontent']), str(d['level']), b(d['content_found']), b(d['content_ok']),
          b(d['read_need_write']), b(d['bs_mismatch']), b(d['hs_mismatch']), b(d['unknown_disk']), str(d['uuid_changes'])]
     t += ['D', str(len(d['disks']))]
-    for e, m, r, rm, ch, z in d['disks']:
-        t += [str(e), str(m), str(r), str(rm), str(ch), b(z)]
+    for e, m, r, rm, ch, ins, cp, z in d['disks']:
+        t += [str(e), str(m), str(r), str(rm), str(ch), str(ins), str(cp), b(z)]
     t += [b(d['scan_need_write']), str(d['blockmax']), str(d['used'])]
     t += [''.join(map(b, d['parity_access'])) or '-', ''.join(map(b, d['parity_open'])) or '-', ','.join(map(str, d['parity_blocks'])) or '-', ','.join(map(str, d['parity_disk_blocks'])) or '-',
           ''.join(map(b, d['parity_resize'])) or '-', ''.join(map(b, d['parity_modified'])) or '-']
